@@ -3,6 +3,48 @@ from hdrcommon import GEN_RULE, hdr_spec
 from meta import COMMON_NOTE
 
 
+def reconnect_script(rnd):
+    """forks just below the split height, a reorganisation, then non-BSV headers offered at the split height on
+    every tip: all must be refused as wrong chain. (A Clean cannot be staged here: a MockLatest repository has no
+    main-chain files below the mocked header, and 556766 real headers per script are out of reach; that the heights
+    used by the rule stay true across Clean's Connect/Truncate is C09's and C10's check.)"""
+    out = ["init net=main maxdepth=144 diff=off split=on"]
+    base = 556767 - rnd.randint(5, 9)
+    t = 1542300000
+    nid = [1]
+
+    def hdr(prev, bits=486604799):
+        i = nid[0]
+        nid[0] += 1
+        out.append(f"hdr id={i} prev={prev} bits={bits} time={t + 600 * i}")
+        return i
+    root = hdr(77777)
+    out.append(f"latest id={root} height={base} work=1000000")
+    # main chain up to 556766
+    main = [root]
+    for _ in range(556766 - base):
+        main.append(hdr(main[-1]))
+        out.append(f"sub id={main[-1]}")
+    # a side fork that also ends at 556766
+    fk = rnd.randint(1, len(main) - 3)
+    side = [main[fk]]
+    for _ in range(len(main) - 1 - fk):
+        side.append(hdr(side[-1]))
+        out.append(f"sub id={side[-1]}")
+    # a heavier branch lower down takes over (reorganisation), below the split height
+    fh = rnd.randint(0, fk)
+    heavy = [main[fh]]
+    for _ in range(rnd.randint(1, 2)):
+        heavy.append(hdr(heavy[-1], 453050367))
+        out.append(f"sub id={heavy[-1]}")
+    out.append("dump")
+    for tip in (side[-1], main[-1]):
+        f = hdr(tip)
+        out.append(f"sub id={f}")
+    out.append("dump")
+    return out
+
+
 def split_scripts(seed, tier):
     """main-net scripts at the real BCH/BSV split height (MockLatest at 556766 with the real header)."""
     import random
@@ -10,6 +52,9 @@ def split_scripts(seed, tier):
     out = []
     n = 40 if tier == "quick" else 600
     for i in range(n):
+        if rnd.random() < 0.25:
+            out += reconnect_script(rnd)
+            continue
         split = "on" if rnd.random() < 0.8 else "off"
         out.append(f"init net=main maxdepth={rnd.choice([0, 2, 144])} diff=off split={split}")
         out.append("hdrreal name=before")
